@@ -5,6 +5,7 @@ import os
 import vlib
 import qcorr
 import pipeline
+import unitlib
 from props.c13 import fact_phrases
 
 PROP_FILE = "props/C18.v"
@@ -50,6 +51,33 @@ def run(rng, tier, model_ok):
     queries = []
     for _ in range(n):
         queries.append(gen_query(rng, phrases))
+    # a fact phrase inside the operand of a cast, to a unit of every dimension the operand can be cast to (lengths, masses, times,
+    # accelerations, densities ...), and the cast itself as an operand next to another fact
+    V = unitlib.vocab()
+    real = [p for p in phrases if p not in ("nosuchfact", "no such fact anywhere")]
+    some = real[: (14 if tier == "quick" else 120)]
+    for must in ("gravity", "mass of earth", "speed of light"):
+        if must in real and must not in some:
+            some.append(must)
+    operands = []
+    for p in some:
+        operands += [(p, [p]), ("10 N / %s" % p, [p]), ("%s * 2 s" % p, [p]), ("%s / 3 s" % p, [p]), ("%s / 3 s^2" % p, [p]),
+                     ("%s / 4 kg" % p, [p]), ("%s * 5 m" % p, [p]), ("2 m / 1 s^2 * %s / %s" % (p, p), [p, p])]
+    orep = vlib.run_impl(["Q " + vlib.hx(o) for o, _ in operands])
+    targets = unitlib.cast_targets(V)
+    ncast = 0
+    for (o, used), r in zip(operands, orep):
+        res = r.get("results") or []
+        if len(res) != 1 or "ok" not in res[0]:
+            continue
+        d = V.dims(res[0]["ok"][2])
+        for t, nt in targets:
+            if V.dims(nt) == d and not V.has_offset(nt):
+                other = rng.choice(real)
+                queries.append(("%s to %s" % (o, t), used))
+                queries.append(("(%s to %s) * %s" % (o, t, other), used + [other]))
+                queries.append(("%s / (%s to %s)" % (other, o, t), [other] + used))
+                ncast += 3
     qs = [q for q, _ in queries]
     on, _, cases_on = qcorr.build_cases(qs, describe=True)
     off, _, cases_off = qcorr.build_cases(qs, describe=False)
@@ -57,7 +85,7 @@ def run(rng, tier, model_ok):
     allp = sorted({p for _, used in queries for p in used})
     krep = dict(zip(allp, vlib.run_impl(["K %s 1" % vlib.hx(p) for p in allp])))
     failures = []
-    stats = {"with_two_or_more_facts": 0, "with_error": 0, "descriptions_total": 0}
+    stats = {"casts_of_fact_operands": ncast, "with_two_or_more_facts": 0, "with_error": 0, "descriptions_total": 0}
     for (q, used), a, b in zip(queries, on, off):
         if "panic" in a or "panic" in b:
             failures.append({"input": q, "why": "panic"})
